@@ -150,6 +150,31 @@ CLAIMED = {
          'connectionForURI not modelled.'),
    technique='Coq proof (induction over code-point strings: percent-encoding and URI split/parse round trip) + py2coq regeneration + vm_compute correspondence against the real parser and sqlite',
    design='3/C18, docs/notes/C18.md'),
+ 'C19': dict(
+   text=('Machine-checked proof (Coq 8.16.1) over Model/Events.v (plain eager and lazy classes, ordered per-class listener tables; a listener '
+         'logs, rewrites the kwargs, removes a key or appends a post-callback): over ALL histories, for every successful create/assign/set/'
+         'lazy syncUpdate/destroy the delivered events are exactly the specified ones -- before-event, database write, after-event, once each per '
+         'registered listener in registration order (C19_exactly_once_in_order, C19_each_listener_once, C19_nobody_else, C19_order_around_write); '
+         'fetching delivers nothing (C19_no_create_on_fetch); the stored row equals the kwargs as the last listener left them (C19_rewrites_stored); '
+         'appended callbacks run after the write and the signal (C19_post_callbacks_after); in a three-level inheritance chain every create-'
+         'finished event follows the INSERTs of all levels (C19_inherit_created_after_all_levels). The model is run against the real SQLObject '
+         '(ordered event log, SQL write log, tables) after every step.'),
+   note=('Trusted: Coq kernel; Model/Events.v hand model (validated only by the correspondence); PyDispatcher delivery order, dict order and '
+         'sqlite modelled; fixed three-column fixture; listeners never raise and never touch the database.'),
+   technique='Coq proof (trace specification proved for every step of every history of an event model) + vm_compute correspondence against sqlite',
+   design='3/C19, docs/notes/C19.md'),
+ 'C20': dict(
+   text=('Machine-checked proof (Coq 8.16.1) over Model/Versioning.v (built on the event model): for every history of create/assign/set/restore '
+         'over any number of masters in which the database refuses no update, the versions of a master followed by its current row are exactly '
+         'its history (C20_history_inv_partial); each successful update appends exactly one version holding the previous row and touches no '
+         'other master (C20_one_version_per_update); restore makes the row equal to the version (C20_restore); versions never mix '
+         '(C20_no_mixing_partial); an update refused by validation changes nothing (C20_refused_by_validation_changes_nothing). The open finding '
+         '(an update the database refuses after validation passed still leaves a version) carries a refutation witness. The model is run against '
+         'the real SQLObject after every step.'),
+   note=('Trusted: Coq kernel; Model/Versioning.v hand model (validated only by the correspondence); eager masters, no extraCols, no '
+         'inheritance, no destroy of masters; dateArchived never compared.'),
+   technique='Coq proof (history invariant over all histories of a versioning model) + vm_compute correspondence against sqlite',
+   design='3/C20, docs/notes/C20.md'),
  'C16': dict(
    text=('Machine-checked proof (Coq 8.16.1) over the ORM model Model/Orm.v: for every history (any operations, failures, injected faults, '
          'out-of-band SQL, any cache configuration) the dirty flag of every held object is true exactly while assignments are pending '
